@@ -318,3 +318,114 @@ def bind_label_sections(chk, bl):
     for k, (i, d, nm) in enumerate(tgt):
         chk.ob(R, "bind_label|_target_section_id#%d" % k, d in labd, loc=bl.loc(i),
                detail="`_target_section_id = %s` but the label's section is %s" % (nm, sorted({n_ for _, _, n_ in lab})), key="bindtarget|%d" % k)
+
+
+def written_buffer_sized(chk, rb):
+    """R-WRITTEN-BUFFER-SIZED: bytes stored into capacity that was only reserved become part of the section through `_size` alone"""
+    import re
+    from .must import branch_atoms
+    R = "R-WRITTEN-BUFFER-SIZED"
+    chk.rule(R, "relocate_to_base: when a section's buffer is grown with reserve_buffer() (capacity only) and bytes are stored through a pointer "
+                "taken from that buffer, every path from such a store to a successful return assigns the buffer's `_size`; buffer_size() is what "
+                "copy_section_data / copy_flattened_data copy, so a store without it is lost (paths on which the section pointer is null are "
+                "excluded: no store can have happened on them)")
+    fn = rb
+    nows = lambda e: re.sub(r"\s+", "", fn.text(e))
+    # sections whose buffer is reserved: reserve_buffer(&P->_buffer, n)
+    reserved = {}
+    for i, x in fn.calls(lambda x: x.get("cn") == "reserve_buffer" and x.get("args")):
+        m = re.match(r"&(.+)->_buffer$", nows(x["args"][0]))
+        if m:
+            reserved[m.group(1)] = i
+    chk.need(len(reserved) >= 1, "relocate_to_base no longer reserves a section buffer")
+    n_store = 0
+    for P in sorted(reserved):
+        # pointer locals taken from P's buffer
+        ptrs = set()
+        for i, x in fn.ex.items():
+            if x["k"] == "binop" and x["op"] == "=" and nows(x["rhs"]) in (P + "->_buffer.data()", P + "->data()", P + "->_buffer._data"):
+                l = fn.e(fn.strip(x["lhs"]))
+                if l and l["k"] == "ref" and "did" in l:
+                    ptrs.add(l["did"])
+            elif x["k"] == "decl":
+                for v in x["vars"]:
+                    if v.get("init") and nows(v["init"]) in (P + "->_buffer.data()", P + "->data()", P + "->_buffer._data"):
+                        ptrs.add(v["did"])
+        blk = fn.block_of()
+
+        def ptr_root(e, depth=0):
+            """local the address expression is based on: p, p + i, &p[i], *p, (T*)p"""
+            y = fn.e(fn.strip(e))
+            if y is None or depth > 8:
+                return None
+            if y["k"] == "ref":
+                return y.get("did")
+            if y["k"] == "binop" and y["op"] in ("+", "-"):
+                return ptr_root(y["lhs"], depth + 1) or ptr_root(y["rhs"], depth + 1)
+            if y["k"] == "unop" and y["op"] in ("*", "&"):
+                return ptr_root(y["sub"], depth + 1)
+            if y["k"] == "subscript":
+                return ptr_root(y.get("base", y.get("lhs")), depth + 1)
+            return None
+        stores = []
+        for i, x in fn.calls(lambda x: x["k"] == "call" and re.match(r"storeu|storea|store_|memcpy|memset|write", x.get("cn") or "") and x.get("args")):
+            if ptr_root(x["args"][0]) in ptrs and i in blk:
+                stores.append(i)
+        for i, x in fn.ex.items():
+            if x["k"] == "binop" and x["op"] == "=" and fn.e(fn.strip(x["lhs"]))["k"] in ("subscript", "unop"):
+                if ptr_root(x["lhs"]) in ptrs and i in blk:
+                    stores.append(i)
+        sizes = {}
+        for i, x in fn.ex.items():
+            if x["k"] == "binop" and x["op"] == "=" and nows(x["lhs"]) == P + "->_buffer._size" and i in blk:
+                sizes.setdefault(blk[i][0], []).append(blk[i][1])
+        atoms = branch_atoms(fn)
+
+        def null_edge(b, si):
+            """True when edge si of block b is the one on which P is null."""
+            if b not in atoms:
+                return False
+            atom, pol = atoms[b]
+            x = fn.e(atom)
+            holds = (si == 0) == pol
+            t = nows(atom)
+            if t == P:
+                return not holds
+            if x and x["k"] == "binop" and x["op"] in ("!=", "==") and {nows(x["lhs"]), nows(x["rhs"])} == {P, "nullptr"}:
+                return (not holds) if x["op"] == "!=" else holds
+            return False
+        ok_rets = {}
+        for b, idx, r in fn.return_sites():
+            v = fn.e(fn.strip(fn.e(r).get("val"))) if fn.e(r).get("val") is not None else None
+            if v is not None and v.get("cvn") == "kOk":
+                ok_rets.setdefault(b, []).append((idx, r))
+        for k, s in enumerate(stores):
+            n_store += 1
+            b0, idx0 = blk[s]
+            bad = None
+            if not any(j > idx0 for j in sizes.get(b0, [])):
+                seen, dq = {b0}, [b0]
+                while dq and bad is None:
+                    b = dq.pop()
+                    if b != b0 or True:
+                        for (ri, r) in ok_rets.get(b, []):
+                            if b != b0 or ri > idx0:
+                                first_size = min(sizes.get(b, [10 ** 9])) if b != b0 else 10 ** 9
+                                if first_size > ri:
+                                    bad = r
+                                    break
+                    for si, sc in enumerate(fn.blocks[b]["succs"]):
+                        if sc is None or sc in seen or null_edge(b, si):
+                            continue
+                        if sc in sizes and sc not in ok_rets:
+                            continue
+                        if sc in sizes and sc in ok_rets and min(sizes[sc]) < min(i_ for i_, _ in ok_rets[sc]):
+                            continue
+                        seen.add(sc)
+                        dq.append(sc)
+            chk.ob(R, "relocate_to_base|%s|store#%d" % (P, k), bad is None, loc=fn.loc(s),
+                   detail="bytes stored with `%s` into the reserved buffer of `%s` reach `%s` (line %s) on a path that never assigns %s->_buffer._size: "
+                          "buffer_size() does not cover them and the flattened copy drops them" %
+                          (" ".join(fn.text(s).split())[:60], P, " ".join(fn.text(bad).split())[:30] if bad is not None else "", fn.line_of(bad) if bad is not None else "", P),
+                   key="bufsized|%s|%d" % (P, k))
+    chk.floor(R + ":stores", n_store, 1)
